@@ -80,12 +80,20 @@ impl LayerCfg {
 /// Deterministic counter-based initializer: dyadic values in [-1, 1], never zero.
 pub fn det_initializer(salt: u64) -> Initializer {
     let counter = Rc::new(Cell::new(salt));
+    // salts >= 1000 give all-negative parameters (every ReLU unit dead on positive inputs),
+    // salts >= 2000 all-positive ones
+    let mode = salt / 1000;
     Box::new(move |_| {
         let c = counter.get();
         counter.set(c + 1);
         let k = (c * 7 + 3) % 17; // 0..16
         let v = (k as f64 - 8.0) / 8.0;
-        (if v == 0.0 { 0.5625 } else { v }) as Float
+        let v = if v == 0.0 { 0.5625 } else { v };
+        (match mode {
+            0 => v,
+            1 => -(v.abs() * 0.75 + 0.125),
+            _ => v.abs() * 0.75 + 0.125,
+        }) as Float
     })
 }
 
